@@ -112,3 +112,10 @@ def gen_value(rng):
 
 def deep(v):
     return copy.deepcopy(v)
+
+
+def ensure_budget(ctx, seconds=40):
+    """core.py starts the case deadline before the Lean build; after a cold or slow build no time would be left
+    and the run would 'pass' with zero cases. Guarantee the generator a minimum of wall time."""
+    import time
+    ctx.deadline = max(ctx.deadline, time.time() + seconds)
